@@ -1144,6 +1144,7 @@ func (x *Exec) indexAddr(fr *frame, s *State, in *ssa.IndexAddr) {
 	idx := x.idx64(fr, s, in.Index)
 	switch u := in.X.Type().Underlying().(type) {
 	case *types.Slice:
+		x.noteSlice(s, base)
 		x.boundsCheck(fr, s, idx, base.L[2], in.Pos(), "slice")
 		x.setVal(fr, in, Value{T: in.Type(), L: []Term{base.L[0], BVOp("bvadd", base.L[1], mulOff(idx, x.stride(u.Elem())))}, NN: true})
 	case *types.Pointer:
@@ -1266,6 +1267,10 @@ func (x *Exec) slice(fr *frame, s *State, in *ssa.Slice) {
 
 func (x *Exec) mapKeySort(mt *types.Map) Sort {
 	ks := x.E.layout(mt.Key())
+	if _, isPtr := mt.Key().Underlying().(*types.Pointer); isPtr {
+		x.C.Trusted["map keys of pointer type are identified by the object they point to (all keys point to the start of distinct objects)"] = true
+		return SInt
+	}
 	if len(ks) != 1 {
 		unsup("map with composite key %s", mt.Key())
 	}
